@@ -530,6 +530,20 @@ def _f_c07_b(case, detail):
     return False
 
 
+def _f_c07_f(case, detail):
+    """generated classes only: an annotated rule that has names AND an override whose value is the dict of another rule: the class declares the
+    rule's own names as fields and drops the keys that come with the override value (the synthesized class takes the keys of the value)"""
+    if not detail.get('bucket', '').startswith('generated:attributes'):
+        return False
+    rules = [(n, tup(x)) for n, x in case['rules']]
+    ri = case.get('ruleinfo') or {}
+    for n, x in rules:
+        kinds = {e[0] for e in walk(x)}
+        if ri.get(n, {}).get('params') and kinds & {'named', 'namedl'} and kinds & {'ovr', 'ovrl'}:
+            return True
+    return False
+
+
 NODE_MEMBERS = ('text', 'line', 'parent', 'path', 'children')
 
 
@@ -539,4 +553,4 @@ def _f_c07_e(case, detail):
     return any(e[0] in ('named', 'namedl') and e[1] in NODE_MEMBERS for _, x in rules for e in walk(x))
 
 
-EXCLUSIONS = {'F-C07-b': _f_c07_b, 'F-C07-e': _f_c07_e}
+EXCLUSIONS = {'F-C07-b': _f_c07_b, 'F-C07-e': _f_c07_e, 'F-C07-f': _f_c07_f}
